@@ -187,6 +187,8 @@ def spec (caseLine implLine : String) : String :=
   | some c =>
     if implLine.startsWith "PANIC" then "FAIL panic-datagram the parser goroutine panicked (gostatsd would exit)" else
     if implLine.startsWith "HANG" then "FAIL hang-datagram" else
+    if (implLine.splitOn " RCVHANG").length > 1 then
+      "FAIL receiver-stalled the real receiver did not hand on the datagrams of this run within the time limit" else
     if (implLine.splitOn " RCVADDR ").length > 1 then
       "FAIL source-address the real receiver attributed a datagram to another sender than the one it came from: " ++ ((implLine.splitOn " RCVADDR ").getD 1 "") else
     if (implLine.splitOn " RCVALIAS ").length > 1 then
